@@ -549,7 +549,7 @@ def install_stream_world(W: HttpDispatchWorld, app: Any) -> None:
     H["_write_stream_header"] = write_stream_header
     from vgi_rpc.http.server._state_token import _ResolvedCall
 
-    H[_ResolvedCall] = lambda S, cs, o, i, sid, created_at=None: SObj(None, kind="ResolvedCall", call_state=cs, output_schema=o, input_schema=i, stream_id=sid, created_at=created_at)
+    H[_ResolvedCall] = lambda S, cs, o, i, sid, created_at=None, method_name=None: SObj(None, kind="ResolvedCall", call_state=cs, output_schema=o, input_schema=i, stream_id=sid, created_at=created_at, method_name=method_name)
 
     def mint_cursor(S: Any, state: Any, state_info: Any, call_id: Any, key: Any, auth: Any) -> Any:
         """Serialises the service's state object and seals it: returns (token, plaintext) or raises (unserialisable state)."""
@@ -732,8 +732,8 @@ def drive_exchange(S: Any, judge: bool = True) -> HttpDispatchWorld:
     H["VReader.read_next_batch_with_custom_metadata"] = read_next
 
     # ---- token helpers: by contract (C12: they raise nothing but _RpcHttpError 400) ----------------------------
-    H["_compute_aad"] = lambda S, auth: b"aad"
-    H["_compute_call_aad"] = lambda S, auth: b"call-aad"
+    H["_compute_aad"] = lambda S, auth, *a, **k: b"aad"
+    H["_compute_call_aad"] = lambda S, auth, *a, **k: b"call-aad"
 
     def open_cursor(S: Any, token: Any, key: Any, aad: Any, ttl: Any = 0) -> Any:
         if W.knob("cursor_token", ["opens", "rejected"]) == "rejected":
@@ -763,7 +763,8 @@ def drive_exchange(S: Any, judge: bool = True) -> HttpDispatchWorld:
                 W.defect("bad_token")  # the call is not cached on this worker and the client did not echo its call token
             return None
         o, i = stream_schemas()
-        return SObj(None, kind="ResolvedCall", call_state=None, output_schema=o, input_schema=i, stream_id="stream-1")
+        # a cached call of this very method ("m" is the URL method of every harness request); entries of other methods are C13's
+        return SObj(None, kind="ResolvedCall", call_state=None, output_schema=o, input_schema=i, stream_id="stream-1", created_at=None, method_name="m")
 
     H["CallCache.get"] = cache_get
 
